@@ -341,8 +341,7 @@ def judge_reports(ctx, reports, jobs, rworst):
     mc = "---- MODULE MC_DynMatReport ----\nEXTENDS DynMatReport\nMCReports == {%s}\n====\n" % ",\n".join(recs)
     cfg = "SPECIFICATION Spec\nCONSTANTS\n Reports <- MCReports\nCHECK_DEADLOCK FALSE\n" + \
           "".join("INVARIANT %s\n" % i for i in REPORT_INVS)
-    res = ctx.tlc("MC_DynMatReport", cfg_text=cfg, extra_files={"MC_DynMatReport.tla": mc}, requirement=False,
-                  extra_args=("-continue",), workers=2)
+    res = ctx.tlc("MC_DynMatReport", cfg_text=cfg, extra_files={"MC_DynMatReport.tla": mc}, requirement=False, workers=2)
     byid = {r["id"]: r for r in reports}
     for name, tr in res.violations:
         rid = tr[-1][1].get("r", {}).get("id") if tr else None
@@ -386,8 +385,9 @@ def judge_layouts(ctx, sessions, rworst):
     mc = "---- MODULE MC_DynMatLayout ----\nEXTENDS DynMatLayout\nMCSessions == {%s}\n====\n" % ",\n".join(recs)
     cfg = "SPECIFICATION Spec\nCONSTANTS\n Sessions <- MCSessions\nCHECK_DEADLOCK FALSE\n" + \
           "".join("INVARIANT %s\n" % i for i in LAYOUT_INVS)
-    res = ctx.tlc("MC_DynMatLayout", cfg_text=cfg, extra_files={"MC_DynMatLayout.tla": mc}, requirement=False,
-                  extra_args=("-continue",), workers=2)
+    # no -continue: a wrong layout handling fails in hundreds of states, each with a long trace; the first
+    # counterexample names the invariant, the complete picture is in the logged runs (detail below)
+    res = ctx.tlc("MC_DynMatLayout", cfg_text=cfg, extra_files={"MC_DynMatLayout.tla": mc}, requirement=False, workers=2)
     byid = {r["id"]: r for r in sessions}
     allbad = [dict(r["_where"], bad_runs=r["_bad"][:3]) for r in sessions if r["_bad"]]
     for name, tr in res.violations:
